@@ -264,6 +264,7 @@ type polHost struct {
 	conns    []*vkNDPConn
 	script   func(stage string) error // failure of lookup / check / dialNDP for the current attempt
 	dialLatency time.Duration
+	checks   int
 	procRoot string // real-state mode: directory standing in for /proc/sys/net/ipv6/conf
 	procEnd  string // content of eth0/autoconf when Dial had returned
 	badIO    []string
@@ -425,14 +426,42 @@ func vkLookupInterface(iface string) (*net.Interface, error) {
 	return &net.Interface{Index: 7, Name: iface, Flags: net.FlagUp, HardwareAddr: net.HardwareAddr{2, 0, 0, 0, 0, 1}}, nil
 }
 
+// vkCheckInterface runs the REAL checkInterface on scripted inputs: the outcome the
+// script asks for at this stage is produced by the interface flags and the
+// address listing the real function sees (link down / no link-local address /
+// a failing address dump of the scripted error class), so that its own
+// classification and error wrapping are part of the checked path.
 func vkCheckInterface(ifi *net.Interface, _ func() ([]net.Addr, error)) error {
-	return vkHost.script("check")
+	want := vkHost.script("check")
+	in := *ifi
+	ll := &net.IPNet{IP: net.ParseIP("fe80::1"), Mask: net.CIDRMask(64, 128)}
+	gua := &net.IPNet{IP: net.ParseIP("2001:db8::1"), Mask: net.CIDRMask(64, 128)}
+	v4 := &net.IPNet{IP: net.ParseIP("192.0.2.1"), Mask: net.CIDRMask(24, 32)}
+	addrs := func() ([]net.Addr, error) { return []net.Addr{v4, gua, ll}, nil }
+	var serr *os.SyscallError
+	switch {
+	case want == nil:
+	case errors.Is(want, ErrLinkNotReady):
+		vkHost.mu.Lock()
+		n := vkHost.checks
+		vkHost.checks++
+		vkHost.mu.Unlock()
+		if n%2 == 0 {
+			in.Flags &^= net.FlagUp
+		} else {
+			addrs = func() ([]net.Addr, error) { return []net.Addr{v4, gua}, nil }
+		}
+	case errors.As(want, &serr):
+		// as package net reports a failing netlink dump
+		e := &net.OpError{Op: "route", Net: "ip+net", Err: os.NewSyscallError("netlinkrib", serr.Err)}
+		addrs = func() ([]net.Addr, error) { return nil, e }
+	default:
+		addrs = func() ([]net.Addr, error) { return nil, want }
+	}
+	return checkInterface(&in, addrs)
 }
 
 func vkDialNDP(ifi *net.Interface) (*vkNDPConn, netip.Addr, error) {
-	if vkHost.dialLatency > 0 {
-		time.Sleep(vkHost.dialLatency)
-	}
 	if err := vkHost.script("socket"); err != nil {
 		return nil, netip.Addr{}, err
 	}
@@ -533,10 +562,16 @@ func polExecute(t *testing.T, c polCase) polRun {
 						return dialErr(o)
 					case o == dNotReady && stage == "check" && len(c.Script)%2 == 1:
 						return dialErr(o)
-					case (o == dSyscall || o == dPerm || o == dOther) && stage == "socket":
+					case (o == dSyscall || o == dPerm || o == dOther) && stage == "check" && len(c.Script)%3 == 0:
+						return dialErr(o) // the address dump of the readiness check fails
+					case (o == dSyscall || o == dPerm || o == dOther) && stage == "socket" && len(c.Script)%3 != 0:
 						return dialErr(o)
 					}
 					return nil
+				}
+				// every attempt takes the dial latency, whichever stage fails (as the model assumes)
+				if h.dialLatency > 0 {
+					time.Sleep(h.dialLatency)
 				}
 				return real()
 			}
@@ -658,7 +693,8 @@ func polCaseClasses(c polCase, want polTrace) (bool, []string) {
 
 func c10Prop(t *testing.T, k *verifkit.Kit) func(c polCase) error {
 	return func(c polCase) error {
-		c.RealDial = false
+		// (the real dial() only where the enumeration asks for it and its OS-facing callees are faked)
+		c.RealDial = c.RealDial && os.Getenv("VERIF_NOPATCH") == "" && strings.Contains(os.Getenv("VERIF_PATCHES"), "dial-dialNDP")
 		want := polModel(c)
 		nt, cls := polCaseClasses(c, want)
 		k.Record(c, nt, cls...)
@@ -861,6 +897,10 @@ func TestVerif_C10policy(t *testing.T) {
 		depth = 6
 	}
 	verifkit.Enumerate(k, t, fmt.Sprintf("policy-executions-depth<=%d", depth), true, polEnumerate(depth, polCancels, false), prop)
+	if os.Getenv("VERIF_NOPATCH") == "" {
+		// the same policy with the real dial() (real checkInterface and error wrapping) under the scripted DialFunc
+		verifkit.Enumerate(k, t, "policy-executions-depth<=3-real-dial", true, polEnumerate(3, []int64{0, int64(300*time.Millisecond) + 1}, true), prop)
+	}
 	verifkit.Enumerate(k, t, "attempt-bound-48..53-failures", true, polLongBackoff, prop)
 	verifkit.Enumerate(k, t, "many-recovery-rounds-in-one-dial", true, polManyCycles(false), prop)
 	verifkit.Rapid(k, t, "policy-random-depth<=60", k.N(3000, 400000), polGen(false), prop)
